@@ -99,6 +99,8 @@ def _f13(prop, case, v):
         return False
     if v.get('kind') not in ('append-bytes-differ', 'append-roundtrip-differs', 'exception'):
         return False
+    if v.get('differs-only-in-byte-order-marks') is not True:
+        return False          # the file must hold exactly the expected text apart from byte-order marks
     text = repr(v)
     return '\\ufeff' in text or '\ufeff' in text or 'BOM' in text or 'xff\\xfe' in text
 
@@ -120,6 +122,8 @@ def _f17(prop, case, v):
     if prop != 'C15' or case.get('fmt') not in ('csv', 'tsv'):
         return False
     if v.get('source') != 'bz2' or v.get('encoding') not in ('utf-16', 'utf-32'):
+        return False
+    if v.get('differs-only-in-byte-order-marks') is not True:
         return False
     return (v.get('kind') == 'exception' and 'does not start with BOM' in str(v.get('detail'))) or \
         (v.get('kind') in ('file-not-decodable', 'append-bytes-differ') and 'BOM' in repr(v))
